@@ -31,6 +31,8 @@ package deferred
 //@   requires unlocked [C08]: held(dcw.lk) == 0
 //@   effects require never_directly [C20]: false
 //@   loop[0] invariant index_in_range [C09]: 0 <= i && i <= len(dcw.putCb)
+//@   loop[0] step one_callback_per_iteration_no_skip [C20]: i + 1 == athead(0, i) + 1 + ite(cb.once, 0, 1) && len(dcw.putCb) == athead(0, len(dcw.putCb)) - ite(cb.once, 1, 0)
+//@   call[dynamic#0] assert calls_current_callback [C20]: arg0 == len(content)
 //@   loop[0] invariant still_open [C20]: !old(dcw.closed) && fx(dcw) == old(fx(dcw)) && dcw.w == old(dcw.w)
 //@   ensures closed_err [C20]: old(dcw.closed) ==> err == carstorage.ErrClosed && fx(dcw) == old(fx(dcw)) && dcw.w == old(dcw.w)
 //@   call[WritableStorage.Put#0] assert delegate [C20]: arg1 == ctx && arg2 == key && ref(arg3) == ref(content) && ref(arg0) == ref(dcw.w) && !old(dcw.closed)
